@@ -300,7 +300,7 @@ def _oracle(recipe: dict, built: G.Built, obs: Observed, expect_valid: set, foun
     truth = {
         'edge_node': [list(e) for e in ex['edges']],
         'face_edge': [pad(r, width) for r in ex['face_edges']],
-        'edge_face': [pad(r, 2) for r in ex['edge_faces']],
+        'edge_face': [list(r) for r in ex['edge_face_rows']],
         'face_face': [pad(r, width) for r in ex['face_faces']],
     }
     key_of = {'edge_node': 'en', 'face_edge': 'fe', 'edge_face': 'ef', 'face_face': 'ff'}
